@@ -244,11 +244,26 @@ pub fn case(rep: &mut Report, rng: &mut Rng, seed: u64, free: Freedom, label: &s
     let master_canon = canon_of(&master_model);
     let mut texts = Vec::new();
     let mut alone_canon = Vec::new();
+    // every third case tries to give some of the files an older version
+    let vi = crate::specwalk::version_index(version);
+    let older = if label == "safe" && rng.chance(1, 3) && vi > 0 { Some(crate::specwalk::ALL_VERSIONS[rng.below(vi)]) } else { None };
+    let mut relabelled_files = 0;
     for f in 0..k {
         let mut idx = 0;
         let Some(p) = project(rng, &m.root, &assignment, &mut idx, f as u32, free) else { return false };
         let doc = RefDoc { bom: false, standalone: None, root: p };
         let text = String::from_utf8(refxml::render(rng, Style::plain(), &doc)).unwrap_or_default();
+        let mut text = text;
+        // files of different versions: a partial view that is also valid in an older version may carry that version
+        if let Some(low) = older {
+            if rng.chance(1, 2) {
+                let relabelled = text.replacen(version.filename(), low.filename(), 1);
+                if load_alone(&relabelled).is_ok() {
+                    text = relabelled;
+                    relabelled_files += 1;
+                }
+            }
+        }
         match load_alone(&text) {
             Ok(am) => alone_canon.push(canon_of(&am)),
             Err(_) => {
@@ -258,6 +273,14 @@ pub fn case(rep: &mut Report, rng: &mut Rng, seed: u64, free: Freedom, label: &s
         }
         texts.push(text);
     }
+    let mixed_label;
+    let label = if relabelled_files > 0 && relabelled_files < k {
+        rep.count("cases.files_of_different_versions", 1);
+        mixed_label = format!("{label}+files-of-different-versions");
+        mixed_label.as_str()
+    } else {
+        label
+    };
     rep.count("split_points", split_points);
     rep.count(&format!("cases.{label}"), 1);
     rep.count(&format!("cases.files_{k}"), 1);
@@ -410,5 +433,6 @@ pub fn run(rep: &mut Report, tier: &str) {
     rep.require("merges_completed", n as u64);
     rep.require("split_points", n as u64);
     rep.require("attributions_checked", 10 * n as u64);
+    rep.require("cases.files_of_different_versions", (n / 40) as u64);
     rep.require("negative_cases", 10);
 }
